@@ -63,9 +63,10 @@ try:
     scratch_checks = {}
     if SCRATCH:
         ev = tempfile.mkdtemp(prefix='ev_', dir='/tmp')
-        manifest = json.load(open('/verif/MANIFEST.json'))
+        home = os.environ.get('VERIF_HOME', '/verif')      # a frozen copy of the machinery for honest first runs
+        manifest = json.load(open(f'{home}/MANIFEST.json'))
         for c in manifest['checks']:
-            r = sh(c['quick_cmd'], cwd='/verif', env=dict(os.environ, VERIF_EVIDENCE_DIR=ev, VERIF_REPO=wt))
+            r = sh(c['quick_cmd'], cwd=home, env=dict(os.environ, VERIF_EVIDENCE_DIR=ev, VERIF_REPO=wt))
             rules = sorted(set(re.findall(r'^  rule      : ([A-Z0-9-]+)', r.stdout, re.M)))
             scratch_checks[c['property_id']] = {'exit': r.returncode, 'rules': rules,
                                                 'constructs': re.findall(r'^  construct : (.*)$', r.stdout, re.M)[:4]}
